@@ -774,4 +774,256 @@ theorem reqOk_of_domain {inp : Input} (wf : WellFormed inp) (dom : InDomain inp)
   have := dom.resKnown _ hp _ hm rfl rd hrd
   exact ⟨this.1, this.2, wf.demandNonneg _ hm rd hrd⟩
 
+/-! ### completeness -/
+
+theorem windowLo_ge_init (rs : List Slice) : ∀ init : Int,
+    init ≤ rs.foldl (fun lo r => if r.start < r.stop ∧ r.start ≤ 0 then max lo r.stop else lo) init := by
+  induction rs with
+  | nil => intro init; simp
+  | cons r rs ih =>
+    intro init
+    simp only [List.foldl_cons]
+    by_cases hc : r.start < r.stop ∧ r.start ≤ 0
+    · rw [if_pos hc]; have := ih (max init r.stop); omega
+    · rw [if_neg hc]; exact ih init
+
+theorem windowLo_ge_mem (rs : List Slice) : ∀ (init : Int) (r : Slice), r ∈ rs →
+    r.start < r.stop → r.start ≤ 0 →
+    r.stop ≤ rs.foldl (fun lo r => if r.start < r.stop ∧ r.start ≤ 0 then max lo r.stop else lo) init := by
+  induction rs with
+  | nil => intro init r hr; simp at hr
+  | cons a rs ih =>
+    intro init r hr h1 h2
+    simp only [List.foldl_cons]
+    rcases List.mem_cons.1 hr with hr1 | hr1
+    · subst hr1
+      rw [if_pos ⟨h1, h2⟩]
+      have := windowLo_ge_init rs (max init r.stop)
+      omega
+    · exact ih _ r hr1 h1 h2
+
+theorem windowHi_le_init (rs : List Slice) : ∀ init : Int,
+    rs.foldl (fun hi r => if r.start < r.stop ∧ ¬ r.start ≤ 0 then min hi r.start else hi) init ≤ init := by
+  induction rs with
+  | nil => intro init; simp
+  | cons r rs ih =>
+    intro init
+    simp only [List.foldl_cons]
+    by_cases hc : r.start < r.stop ∧ ¬ r.start ≤ 0
+    · rw [if_pos hc]; have := ih (min init r.start); omega
+    · rw [if_neg hc]; exact ih init
+
+theorem windowHi_le_mem (rs : List Slice) : ∀ (init : Int) (r : Slice), r ∈ rs →
+    r.start < r.stop → ¬ r.start ≤ 0 →
+    rs.foldl (fun hi r => if r.start < r.stop ∧ ¬ r.start ≤ 0 then min hi r.start else hi) init ≤ r.start := by
+  induction rs with
+  | nil => intro init r hr; simp at hr
+  | cons a rs ih =>
+    intro init r hr h1 h2
+    simp only [List.foldl_cons]
+    rcases List.mem_cons.1 hr with hr1 | hr1
+    · subst hr1
+      rw [if_pos ⟨h1, h2⟩]
+      have := windowHi_le_init rs (min init r.start)
+      omega
+    · exact ih _ r hr1 h1 h2
+
+/-- every non-empty reservation lies entirely below `windowLo` or entirely above `windowHi` -/
+theorem window_spec (cap : Int) (rs : List Slice) :
+    0 ≤ windowLo rs ∧ windowHi cap rs ≤ cap ∧
+    ∀ r ∈ rs, r.stop ≤ r.start ∨ r.stop ≤ windowLo rs ∨ windowHi cap rs ≤ r.start := by
+  refine ⟨windowLo_ge_init rs 0, windowHi_le_init rs cap, ?_⟩
+  intro r hr
+  by_cases h1 : r.start < r.stop
+  · by_cases h2 : r.start ≤ 0
+    · right; left; exact windowLo_ge_mem rs 0 r hr h1 h2
+    · right; right; exact windowHi_le_mem rs cap r hr h1 h2
+  · left; omega
+
+def resDemand (rs : List (Res × Int)) (res : Res) : Int :=
+  ((rs.filter (·.1 == res)).map (·.2)).sum
+
+def vsDemand (inp : Input) (vs : List Vertex) (res : Res) : Int :=
+  (vs.map fun v => resDemand ((inp.vr.lookup v).getD []) res).sum
+
+theorem demand_eq (inp : Input) (xy : Chip) (res : Res) :
+    demand inp xy res = vsDemand inp (chipVertices inp xy) res := rfl
+
+theorem resDemand_cons (rd : Res × Int) (rs : List (Res × Int)) (res : Res) :
+    resDemand (rd :: rs) res = (if res = rd.1 then rd.2 else 0) + resDemand rs res := by
+  unfold resDemand
+  by_cases h : res = rd.1
+  · have : (rd.1 == res) = true := by simp [h]
+    simp [List.filter_cons, this, h]
+  · have : (rd.1 == res) = false := by simp; exact fun e => h e.symm
+    simp [List.filter_cons, this, h]
+
+theorem resDemand_nonneg {rs : List (Res × Int)} (h : ∀ rd ∈ rs, 0 ≤ rd.2) (res : Res) :
+    0 ≤ resDemand rs res := by
+  induction rs with
+  | nil => simp [resDemand]
+  | cons rd rs ih =>
+    rw [resDemand_cons]
+    have := ih (fun rd hrd => h rd (List.mem_cons_of_mem _ hrd))
+    have := h rd List.mem_cons_self
+    split <;> omega
+
+theorem vsDemand_cons (inp : Input) (v : Vertex) (vs : List Vertex) (res : Res) :
+    vsDemand inp (v :: vs) res =
+      resDemand ((inp.vr.lookup v).getD []) res + vsDemand inp vs res := by
+  simp [vsDemand]
+
+theorem vsDemand_nonneg {inp : Input} (hdem : ∀ q ∈ inp.vr, ∀ rd ∈ q.2, 0 ≤ rd.2)
+    (vs : List Vertex) (res : Res) : 0 ≤ vsDemand inp vs res := by
+  induction vs with
+  | nil => simp [vsDemand]
+  | cons v vs ih =>
+    rw [vsDemand_cons]
+    have : 0 ≤ resDemand ((inp.vr.lookup v).getD []) res := by
+      apply resDemand_nonneg
+      cases hl : inp.vr.lookup v with
+      | none => simp
+      | some rs => exact hdem (v, rs) (mem_of_lookup hl)
+    omega
+
+/-- hypothesis of the completeness clause without the "only at the ends" part (which
+the proof does not need): no alignment and the demand fits in the window -/
+def FitsAt (inp : Input) (xy : Chip) (res : Res) : Prop :=
+  alignment inp.constraints res = 1 ∧
+  ∃ cap, capacity inp.machine xy res = some cap ∧
+    demand inp xy res ≤ windowHi cap (reserved inp.constraints xy res)
+                        - windowLo (reserved inp.constraints xy res)
+
+theorem FeasibleAt.fits {inp : Input} {xy : Chip} {res : Res} (h : FeasibleAt inp xy res) :
+    FitsAt inp xy res := by
+  obtain ⟨h1, cap, h2, _, h3⟩ := h
+  exact ⟨h1, cap, h2, h3⟩
+
+/-- the pointer of every fitting resource plus what is still to be allocated stays below
+the window's upper end -/
+def Inv (inp : Input) (xy : Chip) (ptrs : Ptrs) (rem : Res → Int) : Prop :=
+  ∀ res cap, FitsAt inp xy res → capacity inp.machine xy res = some cap →
+    ptrs res + rem res ≤ windowHi cap (reserved inp.constraints xy res) ∧
+    windowLo (reserved inp.constraints xy res) + rem res
+      ≤ windowHi cap (reserved inp.constraints xy res)
+
+theorem allocOne_complete {inp : Input} {xy : Chip} {v : Vertex} {res : Res} {d : Int}
+    {ptrs : Ptrs} {rem R : Res → Int}
+    (hr : ReqOk inp xy (res, d)) (hf : FitsAt inp xy res)
+    (hI : Inv inp xy ptrs rem) (hrem : ∀ r, rem r = (if r = res then d else 0) + R r)
+    (hR : ∀ r, 0 ≤ R r) :
+    ∃ ptrs' e, allocOne inp xy v res d ptrs = .ok (ptrs', e) ∧ Inv inp xy ptrs' R := by
+  obtain ⟨cap, hcap⟩ := hr.cap
+  have hd : 0 ≤ d := hr.nonneg
+  have ha := hf.1
+  obtain ⟨h1, h2⟩ := hI res cap hf hcap
+  rw [hrem res, if_pos rfl] at h1 h2
+  obtain ⟨w0, w1, w2⟩ := window_spec cap (reserved inp.constraints xy res)
+  have hR0 := hR res
+  rw [allocOne_eq hr.known hcap (by rw [ha]; decide), ha]
+  obtain ⟨start, hs, hs1, hs2⟩ := propose_complete (cap := cap) (d := d)
+    (lo := windowLo (reserved inp.constraints xy res))
+    (hi := windowHi cap (reserved inp.constraints xy res))
+    (b := max (ptrs res) (windowLo (reserved inp.constraints xy res)))
+    (g := globalRes inp.constraints res) (l := localRes inp.constraints xy res)
+    hd w2 (by omega) (by omega) w1 (fuelFor cap (ptrs res)) (ptrs res)
+    (by unfold fuelFor; omega) (by omega)
+  rw [hs]
+  refine ⟨_, _, rfl, ?_⟩
+  intro r c hfr hc
+  obtain ⟨i1, i2⟩ := hI r c hfr hc
+  rw [hrem r] at i1 i2
+  simp only [setPtr]
+  by_cases hrr : r = res
+  · subst hrr
+    rw [hcap] at hc
+    injection hc with hc
+    subst hc
+    simp only [if_true] at i1 i2 ⊢
+    omega
+  · simp only [hrr, if_false] at i1 i2 ⊢
+    omega
+
+theorem allocResources_complete {inp : Input} {xy : Chip} {v : Vertex} :
+    ∀ (rs : List (Res × Int)) (ptrs : Ptrs) (R : Res → Int),
+      (∀ rd ∈ rs, ReqOk inp xy rd ∧ FitsAt inp xy rd.1) → (∀ r, 0 ≤ R r) →
+      Inv inp xy ptrs (fun r => resDemand rs r + R r) →
+      ∃ ptrs' es, allocResources inp xy v rs ptrs = .ok (ptrs', es) ∧ Inv inp xy ptrs' R := by
+  intro rs
+  induction rs with
+  | nil =>
+    intro ptrs R _ _ hI
+    refine ⟨ptrs, [], rfl, ?_⟩
+    intro r c hf hc
+    have := hI r c hf hc
+    simpa [resDemand] using this
+  | cons rd rs ih =>
+    intro ptrs R h hR hI
+    obtain ⟨res, d⟩ := rd
+    have h0 := h (res, d) (by simp)
+    have hrs : ∀ rd ∈ rs, ReqOk inp xy rd ∧ FitsAt inp xy rd.1 :=
+      fun rd hrd => h rd (List.mem_cons_of_mem _ hrd)
+    have hnn : ∀ r, 0 ≤ resDemand rs r + R r := by
+      intro r
+      have := resDemand_nonneg (fun rd hrd => (hrs rd hrd).1.nonneg) r
+      have := hR r
+      omega
+    obtain ⟨p1, e, h1, I1⟩ := allocOne_complete (v := v) (R := fun r => resDemand rs r + R r)
+      h0.1 h0.2 hI
+      (by intro r; simp only [resDemand_cons]; omega) hnn
+    obtain ⟨p2, es, h2, I2⟩ := ih p1 R hrs hR I1
+    simp only [allocResources, h1, h2]
+    exact ⟨p2, e :: es, rfl, I2⟩
+
+theorem allocVertices_complete {inp : Input} {xy : Chip}
+    (hdem : ∀ q ∈ inp.vr, ∀ rd ∈ q.2, 0 ≤ rd.2) :
+    ∀ (vs : List Vertex) (ptrs : Ptrs),
+      (∀ v ∈ vs, ∃ rs, inp.vr.lookup v = some rs ∧
+        ∀ rd ∈ rs, ReqOk inp xy rd ∧ FitsAt inp xy rd.1) →
+      Inv inp xy ptrs (vsDemand inp vs) →
+      ∃ out, allocVertices inp xy vs ptrs = .ok out := by
+  intro vs
+  induction vs with
+  | nil => intro ptrs _ _; exact ⟨[], rfl⟩
+  | cons v vs ih =>
+    intro ptrs h hI
+    obtain ⟨rs, hl, hr⟩ := h v (by simp)
+    obtain ⟨p1, es, h1, I1⟩ := allocResources_complete (v := v) rs ptrs (vsDemand inp vs) hr
+      (vsDemand_nonneg hdem vs)
+      (by
+        intro r c hf hc
+        have := hI r c hf hc
+        rw [vsDemand_cons, hl] at this
+        simpa using this)
+    obtain ⟨rest, h2⟩ := ih p1 (fun v hv => h v (List.mem_cons_of_mem _ hv)) I1
+    simp only [allocVertices, hl, h1, h2]
+    exact ⟨_, rfl⟩
+
+theorem allocChips_complete {inp : Input}
+    (hdem : ∀ q ∈ inp.vr, ∀ rd ∈ q.2, 0 ≤ rd.2) :
+    ∀ (chips : List Chip),
+      (∀ xy ∈ chips, ∀ v ∈ chipVertices inp xy, ∃ rs, inp.vr.lookup v = some rs ∧
+        ∀ rd ∈ rs, ReqOk inp xy rd ∧ FitsAt inp xy rd.1) →
+      ∃ out, allocChips inp chips = .ok out := by
+  intro chips
+  induction chips with
+  | nil => intro _; exact ⟨[], rfl⟩
+  | cons xy rest ih =>
+    intro h
+    obtain ⟨a, h1⟩ := allocVertices_complete hdem (chipVertices inp xy) (fun _ => 0)
+      (h xy List.mem_cons_self)
+      (by
+        intro r c hf hc
+        obtain ⟨_, c', hc', hfit⟩ := hf
+        rw [hc] at hc'
+        injection hc' with hc'
+        subst hc'
+        rw [demand_eq] at hfit
+        have := (window_spec c (reserved inp.constraints xy r)).1
+        show 0 + vsDemand inp (chipVertices inp xy) r ≤ _ ∧ _
+        constructor <;> omega)
+    obtain ⟨b, h2⟩ := ih (fun xy' hxy' => h xy' (List.mem_cons_of_mem _ hxy'))
+    simp only [allocChips, h1, h2]
+    exact ⟨_, rfl⟩
+
 end Rig.C05
